@@ -22,7 +22,7 @@ import shadowlib as S
 import shadow_witnesses as W
 import c03_builtins as BB
 
-MODEL_BOUNDARY = {'c03:void-call-value'}     # the model does not claim to predict the evaluator here (see InterpSem.v header)
+MODEL_BOUNDARY = {'c03:void-call-value', 'c03:string-self-assign-crash'}     # the model does not claim to predict the evaluator here (see InterpSem.v header)
 
 
 def evaluate(ck, c, stream, want_native=True):
